@@ -40,6 +40,7 @@ type Prog struct {
 	fieldStores map[*types.Var][]ssa.Instruction
 	storesSeen  map[*ssa.Function]bool
 	depSyn      map[string]*packages.Package
+	writers     map[*types.Var]map[*types.Func]bool
 }
 
 func repoDir() string {
